@@ -31,6 +31,7 @@ def ns():
         import data_algebra.cdata
         from data_algebra import TableDescription, descr, data, ex
         import data_algebra.solutions
+        import data_algebra.arrow
         import pandas as pd
 
         PRELUDE = {"data_algebra": data_algebra, "TableDescription": TableDescription, "descr": descr, "data": data, "ex": ex, "pd": pd,
@@ -107,9 +108,11 @@ class PandasSide(Side):
         self.ops = build_ops(self.src)
 
     def sym(self, tabs, nrows):
+        indexes = None
         if self.inmap:
+            indexes = {spec.get("table", t): spec["index"] for t, spec in self.inmap.items() if spec.get("index") is not None}
             tabs, nrows = apply_inmap(self.inmap, tabs, nrows)
-        r = rel.run_pandas(self.ops, tabs, nrows)
+        r = rel.run_pandas(self.ops, tabs, nrows, indexes=indexes)
         return apply_outmap(self.outmap, r)
 
     def real(self, frames):
@@ -119,7 +122,54 @@ class PandasSide(Side):
         return apply_outmap_real(self.outmap, r), e
 
     def describe(self):
-        return "pandas: " + self.src
+        return "pandas: " + self.src + (f" inmap={self.inmap}" if self.inmap else "")
+
+
+class PandasSeqSide(Side):
+    """sequential application: pipeline i+1 is evaluated with pipeline i's materialised result bound to its table `feed` (C07)"""
+
+    def __init__(self, stages):
+        self.stages = [tuple(s) for s in stages]  # (src, feed_table or None)
+        self.name = "pandas sequential"
+
+    def prepare(self):
+        self.ops = [(build_ops(src), feed) for src, feed in self.stages]
+
+    def sym(self, tabs, nrows):
+        model = load.sym_pandas_model()
+        try:
+            frames = {t: rel.sym_frame(cols, nrows[t]) for t, cols in tabs.items()}
+            cur = None
+            for ops, feed in self.ops:
+                dm = dict(frames)
+                if feed is not None:
+                    dm[feed] = cur
+                with warnings.catch_warnings():
+                    warnings.simplefilter("ignore")
+                    cur = model.eval(ops, data_map=dm)
+            cols = list(cur.columns)
+            return rel.SideResult(cols, [[cur._cols[c][i] for c in cols] for i in range(cur._n)], ordered=False)
+        except Unmodelled as u:
+            return rel.SideResult(unmodelled=str(u))
+        except Exception as e:
+            return rel.SideResult(exc=f"{type(e).__name__}: {str(e)[:200]}")
+
+    def real(self, frames):
+        try:
+            cur = None
+            for ops, feed in self.ops:
+                dm = {k: v.copy() for k, v in frames.items()}
+                if feed is not None:
+                    dm[feed] = cur
+                with warnings.catch_warnings():
+                    warnings.simplefilter("ignore")
+                    cur = ops.eval(dm)
+            return rel._frame_to_rows(cur), None
+        except Exception as e:
+            return None, f"{type(e).__name__}: {str(e)[:200]}"
+
+    def describe(self):
+        return "pandas sequential: " + " ; then ".join(f"{src} (fed as {feed})" if feed else src for src, feed in self.stages)
 
 
 class PandasStepsSide(Side):
@@ -276,6 +326,8 @@ def make_side(d):
         return PandasSide(d["src"], d.get("inmap"), d.get("outmap"))
     if k == "sql":
         return SQLSide(d["src"], d.get("dialect", "sqlite"), d.get("options"), d.get("allow_extend_merges"), d.get("inmap"), d.get("outmap"))
+    if k == "pandas_seq":
+        return PandasSeqSide(d["stages"])
     if k == "pandas_steps":
         return PandasStepsSide(d["base"], d["steps"], d["base_table"])
     if k == "rawsql":
@@ -291,14 +343,21 @@ def make_side(d):
 
 # input / output maps (C10, C15, C18): small picklable specs
 def apply_inmap(inmap, tabs, nrows):
+    """input map specs per table: table (rename table), perm (row permutation), rename (columns), keep (columns), drop (omit the table),
+    take_from (alt_table, [cols]): take these columns' cells from another (pseudo) table of the same height"""
     t2, n2 = {}, {}
     for t, cols in tabs.items():
         spec = inmap.get(t, {})
+        if spec.get("drop"):
+            continue
         nt = spec.get("table", t)
         perm = spec.get("perm")
         ren = spec.get("rename", {})
         keep = spec.get("keep")
-        repl = spec.get("replace_cells", {})
+        repl = {}
+        if spec.get("take_from"):
+            alt, acols = spec["take_from"]
+            repl = {c: tabs[alt][c] for c in acols}
         out = {}
         for c, cells in cols.items():
             if keep is not None and c not in keep:
@@ -316,7 +375,14 @@ def apply_inmap_real(inmap, frames):
     out = {}
     for t, f in frames.items():
         spec = inmap.get(t, {})
+        if spec.get("drop"):
+            continue
         g = f
+        if spec.get("take_from"):
+            alt, acols = spec["take_from"]
+            g = g.copy()
+            for c in acols:
+                g[c] = frames[alt][c].values
         if spec.get("keep") is not None:
             g = g[[c for c in g.columns if c in spec["keep"]]]
         if spec.get("replace_real"):
@@ -328,8 +394,15 @@ def apply_inmap_real(inmap, frames):
             if spec.get("reset_index", True):
                 g = g.reset_index(drop=True)
         if spec.get("index") is not None:
+            import pandas as pd
+
             g = g.copy()
-            g.index = list(spec["index"])
+            lab = list(spec["index"])
+            step = (lab[1] - lab[0]) if len(lab) > 1 else 1
+            if len(lab) > 1 and step != 0 and all(lab[i + 1] - lab[i] == step for i in range(len(lab) - 1)):
+                g.index = pd.RangeIndex(lab[0], lab[0] + step * len(lab), step)  # what slicing / striding a frame produces
+            else:
+                g.index = lab
         if spec.get("rename"):
             g = g.rename(columns=spec["rename"])
         out[spec.get("table", t)] = g
